@@ -130,6 +130,67 @@ pub fn gen_flat_pixels(rng: &mut Rng, sp: &Sprite, n: usize) -> Vec<u8> {
     out
 }
 
+/// Real drawings are mostly empty: whole rows, whole columns and blocks of a cel (or whole tiles) carry nothing.
+/// Blanks the given rows/columns/blocks of a w x h pixel buffer ("nothing" = all-zero bytes for RGBA / grayscale,
+/// the transparent index for indexed sprites whose palette has it).
+pub fn sparsify(rng: &mut Rng, sp: &Sprite, pixels: &mut [u8], w: usize, h: usize) {
+    let bpp = sp.fmt.bpp();
+    if sp.fmt == Fmt::Indexed && !sp.palette.as_ref().map(|p| p.contains_key(&(sp.transparent_index as u32))).unwrap_or(false) {
+        return;
+    }
+    let blank = |px: &mut [u8], i: usize| {
+        if sp.fmt == Fmt::Indexed {
+            px[i] = sp.transparent_index;
+        } else {
+            for b in &mut px[i * bpp..(i + 1) * bpp] {
+                *b = 0;
+            }
+        }
+    };
+    match rng.below(4) {
+        0 => {
+            // every row blank with probability 1/2 (gaps between blobs), first or last row sometimes too
+            for y in 0..h {
+                if rng.chance(1, 2) {
+                    for x in 0..w {
+                        blank(pixels, y * w + x);
+                    }
+                }
+            }
+        }
+        1 => {
+            for x in 0..w {
+                if rng.chance(1, 2) {
+                    for y in 0..h {
+                        blank(pixels, y * w + x);
+                    }
+                }
+            }
+        }
+        2 => {
+            // one painted block, everything else blank
+            let (x0, y0) = (rng.usize_below(w), rng.usize_below(h));
+            let (x1, y1) = (x0 + 1 + rng.usize_below(w - x0), y0 + 1 + rng.usize_below(h - y0));
+            for y in 0..h {
+                for x in 0..w {
+                    if !(x >= x0 && x < x1 && y >= y0 && y < y1) {
+                        blank(pixels, y * w + x);
+                    }
+                }
+            }
+        }
+        _ => {
+            // a blank leading run in every row (left part of the cel empty)
+            let k = 1 + rng.usize_below(w);
+            for y in 0..h {
+                for x in 0..k.min(w) {
+                    blank(pixels, y * w + x);
+                }
+            }
+        }
+    }
+}
+
 /// pixel bytes valid for the sprite's format
 pub fn gen_pixels(rng: &mut Rng, sp: &Sprite, n: usize) -> Vec<u8> {
     match sp.fmt {
@@ -269,6 +330,29 @@ pub fn gen_tileset(rng: &mut Rng, sp: &Sprite, id: u32, cfg: &GenCfg) -> Tileset
             }
         }
     }
+    // other tiles of a tileset may be blank as well (erased tiles keep their id), or mostly empty
+    if count > 1 && count <= 4096 && rng.chance(1, 3) {
+        let bytes_per_tile = area as usize * sp.fmt.bpp();
+        for t in 1..count as usize {
+            match rng.below(4) {
+                0 => {
+                    let has_t = sp.palette.as_ref().map(|p| p.contains_key(&(sp.transparent_index as u32))).unwrap_or(false);
+                    let tile = &mut pixels[t * bytes_per_tile..(t + 1) * bytes_per_tile];
+                    if sp.fmt != Fmt::Indexed {
+                        tile.iter_mut().for_each(|b| *b = 0);
+                    } else if has_t {
+                        tile.iter_mut().for_each(|b| *b = sp.transparent_index);
+                    }
+                }
+                1 if area > 1 => {
+                    let mut tile = pixels[t * bytes_per_tile..(t + 1) * bytes_per_tile].to_vec();
+                    sparsify(rng, sp, &mut tile, tw as usize, th as usize);
+                    pixels[t * bytes_per_tile..(t + 1) * bytes_per_tile].copy_from_slice(&tile);
+                }
+                _ => {}
+            }
+        }
+    }
     TilesetM { id, flags, count, tw, th, base_index: *rng.pick(&[1i16, 0, -1, 32767, -32768, 5]), name: gen_name(rng, false), ext, pixels }
 }
 
@@ -377,8 +461,33 @@ pub fn gen_sprite(rng: &mut Rng, cfg: &GenCfg) -> (Sprite, PaletteProgram) {
                     } else {
                         (rng.range(1, cfg.max_cel as i64) as u16, rng.range(1, cfg.max_cel as i64) as u16)
                     };
-                    let pixels = if flat { gen_flat_pixels(rng, &sp, w as usize * h as usize) } else { gen_pixels(rng, &sp, w as usize * h as usize) };
-                    let c = CelM { x: gen_offset(rng, width, w), y: gen_offset(rng, height, h), opacity: rng.opacity(), content: CelContentM::Image { w, h, pixels }, ud: gen_opt_ud(rng, cfg) };
+                    // coincidences between the cel rectangle and the canvas: same area in another shape, transposed
+                    // canvas, square of one canvas side, exactly the canvas
+                    let coincide = (width as u32 * height as u32) <= 4096 && rng.chance(1, 10);
+                    let (w, h) = if coincide {
+                        let area = width as u32 * height as u32;
+                        let divs: Vec<u32> = (1..=area).filter(|d| area % d == 0 && area / d <= 65_535 && *d <= 65_535).collect();
+                        match rng.below(5) {
+                            0 | 1 => { let d = *rng.pick(&divs); (d as u16, (area / d) as u16) }
+                            2 => (height, width),
+                            3 => if rng.chance(1, 2) { (width, width) } else { (height, height) },
+                            _ => (width, height),
+                        }
+                    } else {
+                        (w, h)
+                    };
+                    let mut pixels = if flat { gen_flat_pixels(rng, &sp, w as usize * h as usize) } else { gen_pixels(rng, &sp, w as usize * h as usize) };
+                    if w as usize * h as usize >= 2 && rng.chance(1, 4) {
+                        sparsify(rng, &sp, &mut pixels, w as usize, h as usize);
+                    }
+                    let mut c = CelM { x: gen_offset(rng, width, w), y: gen_offset(rng, height, h), opacity: rng.opacity(), content: CelContentM::Image { w, h, pixels }, ud: gen_opt_ud(rng, cfg) };
+                    if coincide && rng.chance(2, 3) {
+                        c.x = 0;
+                        c.y = 0;
+                        if rng.chance(2, 3) {
+                            c.opacity = 255;
+                        }
+                    }
                     sp.cels.insert((f as u16, l as u16), c);
                 }
                 LayerKind::Tilemap(id) => {
